@@ -61,6 +61,22 @@ func (m *ClientMap) SendQueue(addr net.Addr) chan []byte {
 	return m.inner.SendQueue(addr, time.Now())
 }
 
+// trySend queues p on the send queue corresponding to addr (creating the queue
+// if necessary) without blocking, and reports whether there was room for it.
+// The send happens under the lock, because the expiry sweep closes queues
+// under the same lock: a send that merely followed SendQueue could otherwise
+// overlap the close of a queue that has just expired.
+func (m *ClientMap) trySend(addr net.Addr, p []byte) bool {
+	m.lock.Lock()
+	defer m.lock.Unlock()
+	select {
+	case m.inner.SendQueue(addr, time.Now()) <- p:
+		return true
+	default:
+		return false
+	}
+}
+
 // clientMapInner is the inner type of ClientMap, implementing heap.Interface.
 // byAge is the backing store, a heap ordered by LastSeen time, to facilitate
 // expiring old client records. byAddr is a map from addresses (i.e., ClientIDs)
